@@ -665,6 +665,23 @@ func init() {
 		if err != nil {
 			return err
 		}
+		// key rotation on one server: the key resolver answers K1 for the account, later K2 — a token signed with K1 is
+		// accepted while the resolver says K1 and refused once it says K2 (and the other way round)
+		var hist []historyItem
+		for hk := 0; hk < 4; hk++ {
+			hw, hl := sessionWorld(o.seed, 700000+hk, sessOpts{Attested: "none", AttIssuer: "authority", Resource: "authority", Window: "valid", Pos: hk % 3, Resolver: "correct"})
+			acct := hw.Cast.byName["account"]
+			k1, k2 := hw.Ctx.KeyResolver[acct.DID.String()], hw.Cast.Ed("rotatedkey")
+			set := func(p *Prin) func() { return func() { hw.Ctx.KeyResolver[acct.DID.String()] = p } }
+			it := historyItem{w: hw, label: "key rotation: " + hl, phases: []func(){set(k1), set(k2), set(k1)}, names: []string{"resolver says K1", "resolver says K2", "resolver says K1 again"}}
+			if hk%2 == 1 {
+				it.phases, it.names = []func(){set(k2), set(k1)}, []string{"resolver says K2", "resolver says K1"}
+			}
+			hist = append(hist, it)
+		}
+		if _, err := serverHistories(o, "C04", hist, labels, 700000); err != nil {
+			return err
+		}
 		dd, dr := disguiseScenarios(o.seed)
 		if err := writeLinkCases(o.out, "C04"); err != nil {
 			return err
@@ -863,6 +880,40 @@ func serverPass(o genOpts, prop string, worlds []*World, keep func(*World) bool)
 	return len(bcases), writeBatchCases(o.out, "cases_"+prop+"srv", bcases, 8)
 }
 
+// serverHistory runs ONE world several times on ONE server, changing what the configured resolvers answer between the
+// requests (phase k sets the state and the world id; the model is evaluated with the state of that request): a server
+// answers every request by what its resolvers say NOW.
+type historyItem struct {
+	w      *World
+	label  string
+	phases []func()
+	names  []string
+}
+
+func serverHistories(o genOpts, prop string, items []historyItem, labels map[int]string, idBase int) (int, error) {
+	var bcases []string
+	n := 0
+	for hi, it := range items {
+		if err := it.w.Build(); err != nil {
+			return 0, err
+		}
+		b := &Batch{ID: idBase + 10*hi, W: it.w, Invs: []string{it.w.Inv}, Handlers: map[string]string{it.w.Can: "ok"}}
+		var phases []func()
+		for k, ph := range it.phases {
+			k, ph := k, ph
+			phases = append(phases, func() { ph(); it.w.ID = idBase + 10*hi + k })
+			labels[idBase+10*hi+k] = fmt.Sprintf("%s — same server, request %d (%s)", it.label, k+1, it.names[k])
+		}
+		_, rendered := b.RunPhases(phases)
+		bcases = append(bcases, rendered...)
+		n++
+	}
+	if len(bcases) == 0 {
+		return 0, nil
+	}
+	return n, writeBatchCases(o.out, "cases_"+prop+"srvhist", bcases, 4)
+}
+
 // C06: the same world under permutations of every proof list / capability list,
 // with decoys, inline vs resolver-supplied proofs
 
@@ -972,6 +1023,31 @@ func init() {
 			return err
 		}
 		if err := writeClaimCases(o.out, "cases_C06claim", claimCases); err != nil {
+			return err
+		}
+		// one server, the same invocation presented again: a proof cited by link that the resolver cannot supply yet is
+		// reported as unavailable; once the resolver can supply it the complete valid chain is authorized (and the other
+		// way round) — whatever the server answered before
+		var hist []historyItem
+		for hk := 0; hk < 4; hk++ {
+			cast := newCast(o.seed*7103 + int64(hk))
+			service := cast.Ed("service")
+			far := int(ucan.Now()) + 1000000
+			depth := 2 + hk%2
+			specs := linearChain(cast, service, "store/add", cast.Ed("p0").DID.String(), depth, far, Cav{})
+			hw := &World{Kind: "resolver-history", Cast: cast, Can: "store/add", Inv: "inv", Specs: specs, Ctx: baseCtx(service)}
+			at := 1 + hk%depth // the token whose proof is cited by link only
+			specs[at].Proofs[0].Inline = false
+			tok := specs[at].Proofs[0].Tok
+			set := func(v bool) func() { return func() { hw.Ctx.Resolvable[tok] = v } }
+			it := historyItem{w: hw, label: fmt.Sprintf("proof of token %d cited by link, depth %d", at, depth),
+				phases: []func(){set(false), set(true), set(false)}, names: []string{"the resolver does not have the proof", "the resolver has it", "the resolver lost it again"}}
+			if hk >= 2 {
+				it.phases, it.names = []func(){set(true), set(false)}, []string{"the resolver has the proof", "the resolver no longer has it"}
+			}
+			hist = append(hist, it)
+		}
+		if _, err := serverHistories(o, "C06", hist, labels, 800000); err != nil {
 			return err
 		}
 		if err := writeWorldCases(o.out, "cases_C06", cases, 16, "check_worlds"); err != nil {
